@@ -1374,6 +1374,10 @@ func main() {
 			decisionFunc("driver/network/acquirepriv.go", "Driver.determineCurrentPriv"))
 		fmt.Fprintf(&sw, "(* channel/read.go processReadBuf *)\nDefinition process_read_buf_code : list dstmt :=\n  %s.\n",
 			decisionFunc("channel/read.go", "processReadBuf"))
+		fmt.Fprintf(&sw, "(* driver/netconf/message.go message.serialize, its parameters, and the arguments of its one call in Driver.sendRPC *)\nDefinition serialize_code : list dstmt :=\n  %s.\nDefinition serialize_params : list string := %s.\nDefinition serialize_call_args : list string := %s.\n",
+			decisionFunc("driver/netconf/message.go", "message.serialize"),
+			coqStrList(paramNames("driver/netconf/message.go", "message.serialize")),
+			coqStrList(callArgs("driver/netconf/rpc.go", "Driver.sendRPC", "serialize")))
 		// the loops that apply an option list to an object (C19)
 		var ol []string
 		for _, lf := range [][2]string{{"driver/generic/driver.go", "NewDriver"}, {"driver/network/driver.go", "NewDriver"}, {"driver/netconf/driver.go", "NewDriver"},
